@@ -31,7 +31,7 @@ ASSUMPTIONS = [
     "the key file is named by the root configuration (other placements are C03's subject)",
 ]
 REQUIRED = ["fmt:json", "fmt:yaml", "fmt:bson", "fmt:xml", "fmt:pickle", "session:same", "session:new", "has:secure", "has:bytes",
-            "has:challenge", "has:schemalist", "has:configtype", "nondefault-encoded", "root_key:collides"]
+            "has:challenge", "has:schemalist", "has:configtype", "nondefault-encoded", "root_key:collides", "file-sweep:bson"]
 LEVEL_TEXT = (
     "Generated schemas and reachable valid states saved and re-loaded through all five formats with a strict "
     "typed equality oracle; evidence on the explored states, kills mutants in to_basic/to_python of every encoded "
@@ -438,7 +438,44 @@ def _labels(spec, R):
     walk(spec)
 
 
+def exhaustive(tier):
+    """The same round trip through FILES (save(filename) / load(filename)) over a sweep of document sizes: formats with a
+    length prefix or significant leading / trailing bytes make the first and last bytes of the file vary with the size."""
+    top = 600 if tier == "quick" else 1400
+    for fmt in trees.FORMATS:
+        step = 1 if fmt == "bson" or tier != "quick" else 7
+        for n in range(0, top, step):
+            yield {"mode": "file-sweep", "fmt": fmt, "n": n}
+
+
+def _file_sweep(case, R):
+    cc = sandbox._state["cc"]
+    fmt, n = case["fmt"], case["n"]
+    R.label("file-sweep:" + fmt)
+    with sandbox.CaseDir() as d:
+        schema = cc.Schema()
+        schema.text = cc.StringField()
+        schema.tail = cc.StringField()
+        schema.n = cc.IntField()
+        cfg = schema(key_filename=os.path.join(d, "key"))
+        cfg.text = "x" * n
+        cfg.tail = " " * (n % 5)  # (values that end in / consist of white space are values like any other)
+        cfg.n = n
+        dest = os.path.join(d, "sweep." + fmt)
+        try:
+            cfg.save(dest, fmt)
+            fresh = schema(key_filename=os.path.join(d, "key"))
+            fresh.load(dest, fmt)
+            ok = fresh.text == cfg.text and fresh.n == n and fresh.tail == cfg.tail
+            err = None
+        except Exception as exc:
+            ok, err = False, exc
+        R.check(ok, "equal", "file-sweep:" + fmt, lambda: "a %s file of a configuration holding a %d-character string does not load back equal through save()/load() (%r)" % (fmt, n, err))
+
+
 def run_case(case, R):
+    if case.get("mode") == "file-sweep":
+        return _file_sweep(case, R)
     cc = sandbox._state["cc"]
     spec = case["spec"]
     _labels(spec, R)
